@@ -44,3 +44,12 @@ def _size(ob, op, dx, dy, k, ttm):
 
 scenario('C13', 'division.size_mismatch', 'torchtt._tt_base.TT.__truediv__', quick=[dict(op='div', dx=d, dy=d, k=k, ttm=False) for d in (1, 2) for k in range(d)],
          expect='raise', documented=_c18.DOC, replay='tt_op')(_size)
+
+
+def _interfaces(ob, which, d, k):
+    from . import c12 as _c12
+    _c12.interfaces(ob, which, d, k)
+
+
+scenario('C13', 'interfaces', ['torchtt._division.compute_phi_fwd_A', 'torchtt._division.compute_phi_bck_A', 'torchtt._division.compute_phi_fwd_rhs', 'torchtt._division.compute_phi_bck_rhs', 'torchtt._division.local_product'],
+         quick=[dict(which='divide', d=d, k=k) for d in (1, 2, 3) for k in range(d)], replay=None, max_paths=50)(_interfaces)
